@@ -679,7 +679,47 @@ func c20RunCase(sp c20Spec) (res c20CaseResult) {
 			}()
 		}
 		close(start)
-		wg.Wait()
+		// A panic inside Observe can leave a lock of the metrics library held, after
+		// which the other observers block for ever: wait for the observers, but give
+		// up when they are all parked on locks (judged on goroutine states).
+		obsDone := make(chan struct{})
+		go func() { wg.Wait(); close(obsDone) }()
+		stuck := 0
+		for waiting := true; waiting; {
+			select {
+			case <-obsDone:
+				waiting = false
+			case <-time.After(20 * time.Millisecond):
+				running, parked := 0, 0
+				for _, g := range goroutineDump() {
+					if !strings.Contains(g.Frames, "prom.(*Metrics).Observe") {
+						continue
+					}
+					if parkedState(g.State) {
+						parked++
+					} else {
+						running++
+					}
+				}
+				if parked > 0 && running == 0 {
+					stuck++
+				} else {
+					stuck = 0
+				}
+				if stuck >= 3 {
+					close(stop)
+					mu.Lock()
+					p := pan
+					mu.Unlock()
+					if p != nil {
+						fail("observe/panic", "%v (and %d other observers are blocked on a lock for ever afterwards)", p, parked)
+					} else {
+						fail("observe/blocked", "%d concurrent Observe calls are parked on locks and none is running: they never return", parked)
+					}
+					return
+				}
+			}
+		}
 		close(stop)
 		swg.Wait()
 	}
